@@ -23,7 +23,7 @@ RULE_OWNER = {
     'time': ['C03'], 'stall': ['C03'], 'poll_unexpected': ['C03'],
     'return_early': ['C03'], 'exception': ['C03'], 'poll_busy': ['C03'],
     'poll_no_timestep': ['C02'],
-    'fit': ['C02'], 'handed': ['C02'], 'front_time': ['C02'],
+    'fit': ['C02'], 'handed': ['C02', 'C01'], 'front_time': ['C02'],
     'front_pending': ['C01'], 'apply_unexpected': ['C01'],
     'apply_content': ['C01'], 'ledger': ['C01'], 'apply_missing': ['C01'],
     'view': ['C04'], 'step_layer_incomplete': ['C04', 'C05'],
@@ -208,6 +208,81 @@ def gen_scenarios(tier, seed, want_steps=False):
     return out
 
 
+def float_companion(rep, prop, tier, seed):
+    """Ordinary decimal float times without global_time_precision.
+
+    TLA+ has no floats, and without a precision grid the implementation's times
+    carry float error (0.1 + 0.2), so these runs cannot be mapped to the ticks of
+    Engine.tla without guessing.  They are therefore judged by the few facts the
+    properties state that survive float error, directly on the recorded events
+    (one process, so no two events are meant to coincide):
+      C03  no exception, no hang; the clock never decreases; at each return it
+           equals start + interval exactly (the same float sum the caller makes);
+      C01  after a forced return every update that was returned has been applied
+           exactly once, in the order it was returned;
+      C02  after a forced return the timesteps handed sum to the simulated time
+           (relative error < 1e-9) and nothing is pending (update() asserts it).
+    Zero-length slivers caused by float error are accepted."""
+    rng = random.Random(seed + 77)
+    n = 300 if tier == 'quick' else 4000
+    for i in range(n):
+        sc = er.float_scenario(rng)
+        raw = er.run_scenario(sc)
+        rep.evaluations += 1
+        f = sc['fscale']
+        bad = None
+        now_prev = None
+        start = None
+        handed, inv_uids, app_uids = [], [], []
+        quiet = False
+        t_first = sc.get('t0', 0) * f
+        for e in raw:
+            if e[0] in ('exc', 'stall'):
+                if prop == 'C03' or (prop == 'C02' and 'unapplied' in str(e)) \
+                        or (prop == 'C01' and 'unapplied' in str(e)):
+                    bad = 'the engine %s: %s' % ('hung' if e[0] == 'stall' else 'raised',
+                                                  e[1] if len(e) > 1 else '')
+                break
+            if e[0] == 'call':
+                start, iv, force = e[3], e[1], e[2]
+            now = {'call': 3, 'ts': 3, 'cond': 4, 'inv': 3}.get(e[0])
+            if now is not None:
+                if now_prev is not None and e[now] < now_prev and prop == 'C03':
+                    bad = 'the clock went back from %r to %r' % (now_prev, e[now])
+                    break
+                now_prev = e[now]
+            if e[0] == 'cond':
+                handed.append(e[2])
+                quiet = quiet or not e[3]
+            if e[0] == 'inv':
+                inv_uids.append(e[5])
+            if e[0] == 'apply' and e[4] not in app_uids:
+                app_uids.append(e[4])
+            if e[0] == 'return':
+                if prop == 'C03' and e[1] != start + iv:
+                    bad = 'the call from %r for %r returned at %r' % (start, iv, e[1])
+                    break
+                if force:
+                    if prop == 'C01' and app_uids != inv_uids:
+                        bad = 'updates returned %r, applied %r' % (inv_uids, app_uids)
+                        break
+                    el = e[1] - t_first
+                    # (a quiet interval ends at the next event, not after its timestep)
+                    if prop == 'C02' and not quiet \
+                            and abs(sum(handed) - el) > 1e-9 * max(1.0, abs(el)):
+                        bad = 'timesteps handed sum to %r, simulated time is %r' % (
+                            sum(handed), el)
+                        break
+        if bad:
+            rep.violation({'kind': 'float', 'scenario': scenario_hash(sc)},
+                          '%s with plain float times (tick %r, no global_time_precision): %s; '
+                          'scenario %s' % (prop, f, bad, json.dumps(sc)),
+                          {'scenario': sc, 'float': True})
+        elif any(abs(h / f - round(h / f)) > 1e-12 for h in handed):
+            rep.nontrivial.add('float-%d' % i)
+    rep.notes['float_scenarios'] = n
+
+
 def interesting(prop, recs):
     polls = [r for r in recs if r['ev'] == 'poll']
     if prop == 'C01':
@@ -354,6 +429,8 @@ def check(prop, tier, seed):
         model_check(rep, prop, tier, scratch)
         if prop in ('C01', 'C02', 'C03', 'C04', 'C12'):
             explore(rep, prop, tier, scratch)
+        if prop in ('C01', 'C02', 'C03'):
+            float_companion(rep, prop, tier, seed)
         scs = gen_scenarios(tier, seed, want_steps=(prop == 'C05'))
         if prop == 'C05':
             from vv import props_steps
